@@ -97,3 +97,9 @@ PROPS = {
          "glob patterns are well-formed (*, ?, [..] without negation/escapes); tenant names contain no path separator (thanos rejects those)"],
         "Reference is an independent first-match function with its own glob matcher."),
 }
+
+# C19 forbids hanging outright. The Progress hook decides the known spin exactly; a construction that spins
+# without reaching the hook (the hook line lives inside the loop it watches) is stopped by the real-time
+# watchdog, re-executed alone, and reported as no-deadlock when it gets stuck again (a run takes ~50 ms).
+PROPS["C19"]["hang_is_violation"] = True
+PROPS["C19"]["env"] = dict(PROPS["C19"].get("env") or {}, VERIF_WATCHDOG_SECONDS="90")
